@@ -22,6 +22,8 @@ Step(m, e) ==
     [] e.op = "selector_parse" ->
          IF e.r = "ptr" THEN [m EXCEPT !.sels = @ + 1]
          ELSE [m EXCEPT !.err = TRUE]                       \* failure: NULL and a last-error message
+    \* a failing parse whose error the client does not take (the slot keeps it until the next failure overwrites it)
+    [] e.op = "selector_parse_untaken" -> IF e.r = "ptr" THEN m ELSE [m EXCEPT !.err = TRUE]
     [] e.op = "add_element_content_handlers" ->
          IF m.builder # "live" THEN Bad(m, "handlers added to a builder that is not live")
          ELSE IF e.r = "0" THEN m ELSE [m EXCEPT !.err = TRUE]
